@@ -480,7 +480,21 @@ impl RandomDirector {
             }
         }
         let retain = self.chance(0.15);
-        let pkt = rc::publish(qos, false, retain, &topic, id, &props, &payload);
+        let mut payload = payload;
+        let mut pkt = rc::publish(qos, false, retain, &topic, id, &props, &payload);
+        if pkt.len() < self.rx && self.chance(0.08) {
+            // now and then a packet that fills the advertised Maximum Packet Size (the receive
+            // buffer) exactly, or misses it by one byte
+            let target = if self.chance(0.7) { self.rx } else { self.rx - 1 };
+            for _ in 0..3 {
+                if pkt.len() < target {
+                    payload.extend(std::iter::repeat(0x5A).take(target - pkt.len()));
+                } else if pkt.len() > target {
+                    payload.truncate(payload.len().saturating_sub(pkt.len() - target));
+                }
+                pkt = rc::publish(qos, false, retain, &topic, id, &props, &payload);
+            }
+        }
         if pkt.len() > self.rx {
             return None;
         }
